@@ -3,6 +3,7 @@
 package main
 
 import (
+	"io"
 	"fmt"
 	"reflect"
 	"sort"
@@ -564,6 +565,65 @@ func c03HistSession(c *Ctx) {
 			}
 			if q, res, _ := c03Merge(ps); res == "ok" {
 				live = append(live, q)
+			}
+		}
+	}
+}
+
+// ---------------------------------------------------------------------------------------------
+// c03HistPreOps: an input has been SERIALISED or otherwise used before it is merged.  Write /
+// WriteUncompressed / Copy leave string-table indices in unexported fields of the receiver (of its
+// value types, functions, mappings, samples ...); String, CheckValid, Compact, Aggregate, Scale are
+// the other things callers do with a profile first.  Merge must see the same profile as before.
+func c03HistPreOps(c *Ctx) {
+	r := c.R
+	heads := []c03Header{
+		{st: []profile.ValueType{{Type: "samples", Unit: "count"}, {Type: "cpu", Unit: "nanoseconds"}}, // period type is a sample type
+			pt: &profile.ValueType{Type: "cpu", Unit: "nanoseconds"}, period: 10, time: 100, dur: 5},
+		{st: []profile.ValueType{{Type: "alloc_objects", Unit: "count"}, {Type: "alloc_space", Unit: "bytes"}}, // heap-like: it is not
+			pt: &profile.ValueType{Type: "space", Unit: "bytes"}, period: 524288, time: 7, dur: 1},
+	}
+	type preOp struct {
+		name string
+		f    func(p *profile.Profile) *profile.Profile // returns the profile to merge (p itself unless stated)
+	}
+	ops := []preOp{
+		{"write", func(p *profile.Profile) *profile.Profile { p.Write(io.Discard); return p }},
+		{"write-uncompressed", func(p *profile.Profile) *profile.Profile { p.WriteUncompressed(io.Discard); return p }},
+		{"copy-original", func(p *profile.Profile) *profile.Profile { p.Copy(); return p }},
+		{"copy-result", func(p *profile.Profile) *profile.Profile { return p.Copy() }},
+		{"write-twice", func(p *profile.Profile) *profile.Profile { p.Write(io.Discard); p.Comments = append(p.Comments, "later"); p.Write(io.Discard); return p }},
+		{"string-checkvalid", func(p *profile.Profile) *profile.Profile { _ = p.String(); p.CheckValid(); return p }},
+		{"compact-original", func(p *profile.Profile) *profile.Profile { p.Compact(); return p }},
+		{"scale-1", func(p *profile.Profile) *profile.Profile { p.Scale(1); p.RemoveUninteresting(); return p }},
+	}
+	k := 0
+	for hi, h := range heads {
+		for _, op := range ops {
+			for which := 0; which < 3; which++ { // first, second, both inputs
+				k++
+				if c.Tier != "thorough" && k%2 == 0 && !(hi == 1 && strings.HasPrefix(op.name, "write") && which == 2) {
+					continue
+				}
+				w := c03BaseWorld()
+				w.ls[1].rel = 0x300
+				g := h
+				g.comm = []string{"a"}
+				a := c03Instantiate(r, w, g, []c03Use{{0, []int64{1, 100}}, {1, []int64{3, 300}}}, 0, false, true)
+				g.comm = []string{"b", "more strings in this one", "and more"}
+				b := c03Instantiate(r, w, g, []c03Use{{0, []int64{7, 700}}}, 1, true, false)
+				if which != 1 {
+					a = op.f(a)
+				}
+				if which != 0 {
+					b = op.f(b)
+				}
+				tags := []string{"preop:" + op.name, fmt.Sprintf("preop-on:%d", which), fmt.Sprintf("head:%d", hi)}
+				if k%3 == 0 {
+					c03Emit(c, "hist-preop", []*profile.Profile{b, a}, true, tags...)
+				} else {
+					c03Emit(c, "hist-preop", []*profile.Profile{a, b}, true, tags...)
+				}
 			}
 		}
 	}
